@@ -9,7 +9,7 @@ CONSTANTS
   Lives = {0, 2}
   TPS = 1
   MaxClock = 2
-  MaxCalls = 2
+  MaxCalls = 3
   MaxTok = 2
   MaxRT = 2
   Bodies = {"plain"}
